@@ -54,6 +54,7 @@ type UnitSpec struct {
 	Prefer         string                `json:"prefer"` // "" (pipe first) or a one-shot solver name tried first for hard arithmetic
 	PipeTimeoutMS  int                   `json:"pipe_timeout_ms"`
 	AssertTimeoutS int                   `json:"assert_timeout_s"`
+	CompileOnly    bool              `json:"compile_only"` // gen unit: the claim is "every generated package type-checks and builds"
 	Stubs          map[string]string `json:"stubs"` // function key -> harness function replacing it under the engine (environment stubs)
 	genBounds      map[string]any
 }
@@ -343,6 +344,10 @@ func runUnit(id, hdir, scratch string, u UnitSpec, o runOpts, listed map[string]
 			return res
 		}
 	}
+	if u.CompileOnly {
+		compileOnlyUnit(id, scratch, &u, res, listed)
+		return res
+	}
 	ov, ovPaths, err := overlayFor(hdir, scratch, u, "", false)
 	if err != nil {
 		res.err = err
@@ -626,4 +631,57 @@ func harnessInventory(pkg *ssa.Package, roots []*ssa.Function) (covers, asserts 
 	sort.Strings(covers)
 	sort.Strings(asserts)
 	return
+}
+
+// compileOnlyUnit: every package the generator wrote must type-check and build against the ogen
+// runtime (go build with the overlay); a package that does not is a violation whose replay is the spec.
+func compileOnlyUnit(id, scratch string, u *UnitSpec, res *unitResult, listed map[string]bool) {
+	st := genStates[u.Name]
+	ovFile := filepath.Join(scratch, "overlay_"+u.Name+".json")
+	writeOverlayJSON(ovFile, st.files)
+	cr := &CaseResult{Name: u.Name + "/compile", Stats: newCaseStats()}
+	for _, name := range st.accepted {
+		pkg := modPath + "/internal/zzgen/" + u.Name + "_" + name
+		cmd := exec.Command("go", "build", "-overlay", ovFile, pkg)
+		cmd.Dir = repoDir
+		cmd.Env = goEnv()
+		out, err := cmd.CombinedOutput()
+		cr.Stats.Paths++
+		cr.Stats.BranchPoints++
+		if err == nil {
+			res.nativeOK++
+			if len(cr.Stats.Samples) < 3 {
+				cr.Stats.Samples = append(cr.Stats.Samples, map[string]any{"generated_package": name, "go_build": "ok"})
+			}
+			continue
+		}
+		msg := "generated package does not build: " + firstLines(string(out), 3)
+		v := Violation{Case: u.Name + "/" + name, Msg: msg, Kind: "build", Site: "go build " + pkg}
+		key := "C02/generated-package-does-not-build:" + name
+		if listed[key] {
+			v.Knowns = []string{key}
+		}
+		// replay directory: the spec and the command
+		replayCounter[id]++
+		dir := filepath.Join(verifDir, "replays", id, fmt.Sprintf("%03d", replayCounter[id]))
+		os.RemoveAll(dir)
+		os.MkdirAll(dir, 0o755)
+		if b, err := os.ReadFile(st.specs[name]); err == nil {
+			os.WriteFile(filepath.Join(dir, "spec.yml"), b, 0o644)
+		}
+		os.WriteFile(filepath.Join(dir, "README.txt"), []byte("generate spec.yml with the tree's generator (drivers/genrun) and go build the package:\n"+string(out)), 0o644)
+		os.WriteFile(filepath.Join(dir, "replay.sh"), []byte("#!/bin/sh\ncat "+dir+"/README.txt\n"), 0o755)
+		v.PathDesc = dir
+		res.confirmed = append(res.confirmed, v)
+	}
+	res.nCases = len(st.accepted)
+	res.cases = append(res.cases, cr)
+}
+
+func firstLines(s string, n int) string {
+	ls := strings.Split(strings.TrimSpace(s), "\n")
+	if len(ls) > n {
+		ls = ls[:n]
+	}
+	return strings.Join(ls, " | ")
 }
